@@ -9,23 +9,6 @@ import FluteModel.Lemmas.PathMap
 namespace Flute.Props.C05
 open Flute Flute.PathMap Flute.Lemmas.PathMap
 
-/-- the builder's own check (`dest.is_dir()`): the kernel resolves `dest`, to its lexical resolution -/
-theorem builder_dest (fs : FS) (cwd : RPath) (dest : Str) (hb : builderNew fs cwd dest = true) :
-    dest ≠ [] ∧ walk fs cwd (components dest) = .ok (resolve cwd dest) := by
-  unfold builderNew isDirC at hb
-  have hne : dest ≠ [] := by
-    intro h; subst h; simp [components_nil] at hb
-  refine ⟨hne, ?_⟩
-  cases hc : components dest with
-  | nil => simp [hc] at hb
-  | cons c r =>
-    simp only [hc] at hb
-    cases hw : walk fs cwd (c :: r) with
-    | error e => simp [hw] at hb
-    | ok p =>
-      have := walk_eq_resolveC fs _ _ _ hw
-      rw [this, resolve, hc]
-
 /-- **C05, full strength.**  For every filesystem state `fs`, working directory, destination string `dest` accepted by
     `ObjectWriterFSBuilder::new`, every Content-Location `loc` and EVERY answer `ans` of the URL parser, with
     `d = resolve dest` (POSIX lexical resolution):
@@ -146,6 +129,29 @@ theorem run_confined (fs : FS) (cwd : RPath) (dest loc : Str) (ans : UrlAns) (oc
       have := (h4 hm).1
       rw [hop] at this; cases this
 
+/-- **A failed `open` never creates, truncates or removes a file** - the honest form of "otherwise nothing is touched":
+    `create_dir_all(parent)` runs before `File::create`, so when the latter fails (the name is an existing directory, the
+    path ends in '/', a parent is a file ...) directories may already have been made.  Every difference between the
+    filesystems is then a NEW DIRECTORY strictly below `resolve dest`; no existing entry is altered. -/
+theorem failed_open_only_new_directories (fs : FS) (cwd : RPath) (dest loc : Str) (ans : UrlAns)
+    (hb : builderNew fs cwd dest = true)
+    (hfail : (PathMap.open fs cwd dest loc ans).opened = none) :
+    ∀ q, (PathMap.open fs cwd dest loc ans).fs q ≠ fs q →
+      Under (resolve cwd dest) q ∧ fs q = none ∧ (PathMap.open fs cwd dest loc ans).fs q = some .dir := by
+  obtain ⟨hdne, hw⟩ := builder_dest fs cwd dest hb
+  cases hm : mapLoc loc ans with
+  | none => intro q hq; simp [PathMap.open, hm] at hq
+  | some rel =>
+    have hrel : relOk rel = true := by
+      unfold mapLoc at hm
+      split at hm
+      · cases hm
+      · split at hm
+        · injection hm with hm; rw [← hm]; assumption
+        · cases hm
+    simp only [PathMap.open, hm] at hfail ⊢
+    exact ((openAt_conf fs cwd dest rel _ hw hdne hrel).failed hfail).1
+
 /-- **Re-opening is idempotent.**  A later object with the same Content-Location ("existing files will be
     overwritten"): after a successful `open`, opening the same location again in the resulting filesystem creates no
     directory, truncates the very same file and changes nothing else. -/
@@ -210,6 +216,24 @@ theorem plain_name_accepted (name : Str) (h47 : 47 ∉ name) (hne : name ≠ [])
   · simp [mapLoc, contentLocationPath, stripSlash, hrel]
   · simp [mapLoc, contentLocationPath, hs, hrel]
 
+/-- **Legitimate locations still work** (`file:///hello` and friends, for every name and every filesystem): with a
+    URL path `/<name>` - `name` non-empty, not `.`/`..`, without '/' - `open` succeeds unless `<dest>/<name>` is an
+    existing directory, creates no directory, and creates (or truncates, if it existed) exactly
+    `resolve(dest)/<name>`, bytes of the name taken literally. -/
+theorem plain_name_opens (fs : FS) (cwd : RPath) (dest loc name : Str)
+    (hb : builderNew fs cwd dest = true)
+    (h47 : 47 ∉ name) (hne : name ≠ []) (hd : name ≠ [46]) (hdd : name ≠ [46, 46])
+    (hnd : fs (resolve cwd dest ++ [name]) ≠ some .dir) :
+    (PathMap.open fs cwd dest loc (.ok (47 :: name))).dirs = [] ∧
+    (PathMap.open fs cwd dest loc (.ok (47 :: name))).opened =
+      some (join dest name, resolve cwd dest ++ [name], (fs (resolve cwd dest ++ [name])).isNone) := by
+  obtain ⟨hdne, hw⟩ := builder_dest fs cwd dest hb
+  have hcne : components dest ≠ [] := by
+    intro h; unfold builderNew isDirC at hb; simp [h] at hb
+  have hm := (plain_name_accepted name h47 hne hd hdd loc).1
+  simp only [PathMap.open, hm]
+  exact openAt_plain_name fs cwd dest name _ hw hdne hcne h47 hne hd hdd hnd
+
 /-! ### the defect (D9) on the code before the repair -/
 
 /-- a tiny filesystem: `/`, `/s`, `/s/dest` are directories -/
@@ -264,6 +288,20 @@ example :
     (PathMap.open wfs [] wdest [] (.ok [47, 97, 47, 98, 46, 116, 120, 116])).dirs = [[[115], [100, 101, 115, 116], [97]]] ∧
     ((PathMap.open wfs [] wdest [] (.ok [47, 97, 47, 98, 46, 116, 120, 116])).opened.map (·.2.1))
       = some [[115], [100, 101, 115, 116], [97], [98, 46, 116, 120, 116]] := by
+  decide
+
+/-- a failed `open` that nevertheless created a directory (hypothesis of `failed_open_only_new_directories` met
+    non-trivially): URL path `/a/b/` - `create_dir_all(dest/a)` succeeds, `File::create("dest/a/b/")` fails -/
+example :
+    (PathMap.open wfs [] wdest [] (.ok [47, 97, 47, 98, 47])).opened = none ∧
+    (PathMap.open wfs [] wdest [] (.ok [47, 97, 47, 98, 47])).dirs = [[[115], [100, 101, 115, 116], [97]]] := by
+  decide
+
+/-- re-opening (hypothesis of `reopen_idempotent`): the second `open` of `/hello` truncates the same file -/
+example :
+    (PathMap.open (PathMap.open wfs [] wdest [] (.ok [47, 104, 101, 108, 108, 111])).fs [] wdest []
+        (.ok [47, 104, 101, 108, 108, 111])).opened.map (·.2)
+      = some ([[115], [100, 101, 115, 116], [104, 101, 108, 108, 111]], false) := by
   decide
 
 /-- `mapLoc` is not constantly `none`, and not constantly `some` -/
